@@ -1,4 +1,10 @@
 VX = 'contract-based deductive verification: Verus on functions extracted mechanically from /repo on every run'
+claim('C01', 'DESIGN 4/C01, 10',
+      'Partial: the integer/index skeleton is proved, the floating-point identity is only bounded-checked. Proved (Verus, all sizes): transpose_small moves in[x + y*w] to out[y + x*h] and nothing else; reverse_bits::<D> computes the digit reversal fold and stays below D^k; compute_logarithm returns the exact exponent; every scalar-planner recipe multiplies out to the requested length (with C04). Bounded stand-in for everything numerical (never counted as proved): FftPlannerScalar<f64> against the DFT definition on impulses for every n below the bound and structured lengths up to 131072, all four entry points; SSE and AVX planners against the portable transform.',
+      'Not decided by any contract: butterfly kernels, twiddle multiplication, Rader/Bluestein convolution algebra, rounding; all SIMD kernels. bitreversed_transpose / factor_transpose are not under contract (array map with capturing closures).')
+claim('C15', 'DESIGN 4/C15, 10',
+      'Frame condition. Portable code: the input of process_immutable_with_scratch is a shared slice all the way down (helpers validate_and_zip / fft_helper_immut and every perform_fft_immut under contract take &[Complex<T>]; Verus ownership checking of the extracted text; no unsafe write path in the portable crate). SIMD code (raw pointers, outside both verifiers): bounded stand-in on this CPU - FftPlannerSse/FftPlannerAvx f32/f64, every length below the bound, 1..5 chunks and ill-shaped (panicking) calls, input bytes compared through volatile reads in an unoptimized build.',
+      'SIMD half is bounded only (never counted as proved); portable half relies on rustc borrow checking plus an extractor scan.')
 claim('C03', 'DESIGN 4/C03',
       'Verus mode S with R2 (get_unchecked -> indexed access, so the bound is the obligation) proves every unchecked access of transpose_small in bounds for all sizes, every slice split/index/copy in MixedRadix, MixedRadixSmall, GoodThomasAlgorithm(Small) perform_fft_* in bounds under the helper contract, and that the validate_and_* helpers never index outside the caller buffers.',
       'Not under contract (assumed): all AVX/SSE kernels, butterflies, Radix4/Radix3/RadixN/Rader/Bluestein/Dft bodies, GoodThomas reindex_* (bounds-checked indexing), external crate transpose.')
@@ -33,10 +39,8 @@ claim('C14', 'DESIGN 4/C13-C14',
       'Gate clause only: both SIMD planner constructors decline (Err) any element type whose TypeId is neither f32 nor f64, for every such type (TypeId uninterpreted), so the automatic planner falls through to the portable planner.',
       'Not decided: exactness of the generic portable code over an exact field (value-level algebra).')
 for pid, why in [
-    ('C01', 'not built yet (planned: index/permutation skeleton)'),
     ('C02', 'a quantitative floating-point rounding bound needs an error calculus neither Verus nor CBMC has'),
     ('C11', 'a property over thread interleavings: Kani has no threads, Verus would need the crate rewritten over permission types'),
-    ('C15', 'not built yet'),
     ('C16', 'API stability is decided by the type checker on a witness crate, not by a contract'),
 ]:
     na(pid, why)
